@@ -203,9 +203,18 @@ impl Iterator for BitBoardIter {
     #[cfg(target_feature = "bmi2")]
     #[cfg(any(target_arch = "x86", target_arch = "x86_64"))]
     fn nth(&mut self, n: usize) -> Option<Self::Item> {
+        // skipping past the last element exhausts the iterator, like `Iterator::nth`
+        if n >= 64 {
+            self.0 = BitBoard::empty();
+            return None;
+        }
+
         let x = unsafe { core::arch::x86_64::_pdep_u64(1 << n, self.0.to_u64()) }.trailing_zeros()
             as u8;
-        let pos = Pos::from_u8(x)?;
+        let Some(pos) = Pos::from_u8(x) else {
+            self.0 = BitBoard::empty();
+            return None;
+        };
         let mask = ((1u128 << (1 + pos as u32)) - 1) as u64;
         self.0 -= BitBoard::from(mask);
         Some(pos)
